@@ -9,7 +9,10 @@
 
 mod fw;
 mod refeval;
+mod c03;
 mod c04;
+mod a64ref;
+mod liftexec;
 mod c07;
 mod c08;
 mod c09;
@@ -32,6 +35,7 @@ use std::time::{Duration, Instant};
 
 fn make_check(prop: &str, tier: Tier) -> Option<Box<dyn Check>> {
     Some(match prop {
+        "C03" => Box::new(c03::C03::new(tier)),
         "C04" => Box::new(c04::C04::new(tier)),
         "C07" => Box::new(c07::C07::new(tier)),
         "C08" => Box::new(c08::C08::new(tier)),
